@@ -370,6 +370,7 @@ type shChecker struct {
 	stage    string
 	tainted  bool // the schema came out of a cache in which an earlier build had failed
 	clientOK map[string]bool
+	dup      map[string]bool // schemas with a duplicated property name
 }
 
 func (ck *shChecker) add(class, cause, format string, a ...any) {
@@ -443,6 +444,9 @@ func (ck *shChecker) checkProps(owner string, md protoreflect.MessageDescriptor,
 				if p != nil && p.JSONName == n && len(p.ProtoField) == 0 {
 					how = "exposed-oneof"
 				}
+			}
+			if ck.dup != nil {
+				ck.dup[owner] = true
 			}
 			ck.add("C18|names|duplicate", how, "%s: JSON name %q appears %d times in the %s property list", owner, n, k, listKind)
 		}
@@ -604,6 +608,9 @@ func shMessageValue(md protoreflect.MessageDescriptor, depth int) protoreflect.M
 		}
 		return m
 	}
+	if depth < 0 {
+		return m // present but empty
+	}
 	if depth <= 0 {
 		// innermost level: scalars only
 		for i := 0; i < md.Fields().Len(); i++ {
@@ -615,8 +622,12 @@ func shMessageValue(md protoreflect.MessageDescriptor, depth int) protoreflect.M
 		return m
 	}
 	seenOneof := map[string]bool{}
+	wrapper := j5schema.IsOneofWrapper(md) // j5 reads the whole message as a oneof: one member only
 	for i := 0; i < md.Fields().Len(); i++ {
 		f := md.Fields().Get(i)
+		if wrapper && i > 0 {
+			break
+		}
 		if o := f.ContainingOneof(); o != nil && !o.IsSynthetic() {
 			if seenOneof[string(o.Name())] {
 				continue
@@ -787,8 +798,9 @@ func shEval(c *shCase, b *shBuilt) *shEvalResult {
 
 	// --- D: self-consistency of the real schema objects
 	shStage("consistency")
+	dup := map[string]bool{}
 	if set != nil && setErr == nil {
-		ck := &shChecker{res: res, byName: byName, seen: map[string]bool{}, stage: "set", clientOK: clientOK}
+		ck := &shChecker{res: res, byName: byName, seen: map[string]bool{}, stage: "set", clientOK: clientOK, dup: dup}
 		var pkgs []string
 		for n := range set.Packages {
 			pkgs = append(pkgs, n)
@@ -817,7 +829,7 @@ func shEval(c *shCase, b *shBuilt) *shEvalResult {
 		if rs == nil {
 			continue
 		}
-		ck := &shChecker{res: res, byName: byName, seen: map[string]bool{}, stage: "cache", clientOK: clientOK}
+		ck := &shChecker{res: res, byName: byName, seen: map[string]bool{}, stage: "cache", clientOK: clientOK, dup: dup}
 		ck.checkRoot(rs, b.Msgs[i], true)
 	}
 	// duplicate findings from the two views collapse
@@ -830,6 +842,9 @@ func shEval(c *shCase, b *shBuilt) *shEvalResult {
 	codecFail := false
 	anyFailedBuild := false
 	_ = anyFailedBuild
+	passed := make([]bool, len(b.Msgs)) // empty + every single-field message went through the codec
+	type rtFn func(which string, m protoreflect.Message, fd protoreflect.FieldDescriptor) bool
+	rts := make([]rtFn, len(b.Msgs))
 	for i, md := range b.Msgs {
 		fresh := res.Obs.Cache[i] == "ok"
 		if res.Obs.Cache[i] == "panic" || res.Obs.Root[i] == "panic" {
@@ -849,6 +864,9 @@ func shEval(c *shCase, b *shBuilt) *shEvalResult {
 			site, msg := shGuard(func() { js, err = cc.ProtoToJSON(m) })
 			if suffix != "" {
 				cause, needMin = "", false // the cause is the earlier failed build, whatever made it fail
+			} else if dup[shSchemaName(md)] {
+				// two properties share a JSON name: whatever the codec does with the second one follows from that
+				cause, needMin = "duplicate-names", false
 			}
 			if msg != "" {
 				codecFail = true
@@ -908,17 +926,53 @@ func shEval(c *shCase, b *shBuilt) *shEvalResult {
 			add("C18|cache|schema-after-failed-build", "", false,
 				"the shared codec encodes %s although SchemaCache.Schema fails for it (%s): an unlinked placeholder of an earlier failed build is being used", md.FullName(), res.Obs.CacheErr[i])
 		}
+		// one field at a time; nested user messages are present but empty, so that a failure belongs to this field
 		allOK := true
 		for j := 0; j < md.Fields().Len(); j++ {
 			fd := md.Fields().Get(j)
 			m := dynamicpb.NewMessage(md)
-			shPopulateField(m, fd, 2)
+			shPopulateField(m, fd, -1)
 			if !rt("populated", m, fd) {
 				allOK = false
 			}
 		}
-		if allOK && md.Fields().Len() > 1 {
-			rt("populated-all", shMessageValue(md, 2), nil)
+		passed[i] = allOK && fresh && !dup[shSchemaName(md)]
+		rts[i] = rt
+	}
+	// every field populated, recursively (depth 2), for the types whose parts all passed on their own
+	for i, md := range b.Msgs {
+		if !passed[i] || md.Fields().Len() == 0 {
+			continue
+		}
+		if _, isOneof := roots[i].(*j5schema.OneofSchema); isOneof {
+			continue
+		}
+		ok := true
+		seen := map[protoreflect.FullName]bool{}
+		var walk func(d protoreflect.MessageDescriptor)
+		walk = func(d protoreflect.MessageDescriptor) {
+			if seen[d.FullName()] {
+				return
+			}
+			seen[d.FullName()] = true
+			for k, x := range b.Msgs {
+				if x.FullName() == d.FullName() && !passed[k] {
+					ok = false
+				}
+			}
+			for k := 0; k < d.Fields().Len(); k++ {
+				f := d.Fields().Get(k)
+				if f.IsMap() {
+					f = f.MapValue()
+				}
+				if f.Kind() == protoreflect.MessageKind && f.Message().ParentFile().Path() == b.File.Path() {
+					walk(f.Message())
+				}
+			}
+		}
+		walk(md)
+		if ok {
+			rts[i]("populated-all", shMessageValue(md, 2), nil)
 		}
 	}
 	if res.Codecs > 0 {
@@ -1385,19 +1439,27 @@ func shMinCrash(c *shCase, out *Out) *Out {
 				kind = strings.TrimSpace(strings.SplitN(s[i+12:], "\n", 2)[0])
 				kind = strings.ReplaceAll(kind, " ", "-")
 			}
+			// the function that recurses is the one that fills the dump (the top frame is wherever the stack ran out)
 			site = "unknown-site"
 			stage := "?"
+			count := map[string]int{}
 			for _, l := range strings.Split(s, "\n") {
 				l = strings.TrimSpace(l)
 				if strings.HasPrefix(l, "SHAPES-STAGE ") {
 					stage = strings.TrimPrefix(l, "SHAPES-STAGE ")
 				}
-				if site == "unknown-site" && strings.HasPrefix(l, "github.com/pentops/j5/") && !strings.Contains(l, "verifh") {
+				if strings.HasPrefix(l, "github.com/pentops/j5/") && !strings.Contains(l, "verifh") {
 					fn := l
 					if i := strings.LastIndex(fn, "("); i > 0 {
 						fn = fn[:i]
 					}
-					site = strings.TrimPrefix(fn, "github.com/pentops/j5/")
+					count[strings.TrimPrefix(fn, "github.com/pentops/j5/")]++
+				}
+			}
+			best := 0
+			for fn, n := range count {
+				if n > best || n == best && fn < site {
+					site, best = fn, n
 				}
 			}
 			if len(s) > 1500 {
